@@ -350,6 +350,7 @@ func init() {
 
 	initSyncModels()
 	initFSModels()
+	initDeepEqModel()
 	initTimeModels()
 	initErrFmtModels()
 	initBytesModels()
